@@ -203,9 +203,9 @@ theorem withDeclaredDefaults_noVarDefs (applied : Bool) (op : Op) (reqVars : Opt
 /-- plan → execute → scrub → envelope for the variables as given (introspection answers are
     modelled in Model/Introspect). `scrubOrder` stands for the Go map iteration order over the
     scrub table (identity by default). -/
-def gatewayCore (c : PCtx) (cfg : ExecCfg) (op : Op) (reqVars : Option (List (String × J))) (down : Downstream)
-    (scrubOrder : Scrub → Scrub := id) : G GwResult :=
-  match plan c op with
+def gatewayCoreWith (planner : PCtx → Op → G (List Step × Scrub)) (c : PCtx) (cfg : ExecCfg) (op : Op)
+    (reqVars : Option (List (String × J))) (down : Downstream) (scrubOrder : Scrub → Scrub := id) : G GwResult :=
+  match planner c op with
   | .error (.err m) => .ok ⟨none, [m], []⟩      -- planner error: GRAPHQL_VALIDATION_FAILED, data null
   | .error f => .error f
   | .ok (steps, sf) =>
@@ -213,6 +213,17 @@ def gatewayCore (c : PCtx) (cfg : ExecCfg) (op : Op) (reqVars : Option (List (St
     | .ok st => .ok ⟨some (ScrubClean.cleanAll (scrubOrder sf) st.result), [], st.calls⟩
     | .error (.err m) => .ok ⟨none, [m], []⟩    -- execution error: data null, errors non-empty
     | .error f => .error f
+
+/-- `gatewayCoreWith` over the planner model of the theorems (`plan`) -/
+def gatewayCore (c : PCtx) (cfg : ExecCfg) (op : Op) (reqVars : Option (List (String × J))) (down : Downstream)
+    (scrubOrder : Scrub → Scrub := id) : G GwResult :=
+  gatewayCoreWith plan c cfg op reqVars down scrubOrder
+
+/-- the whole pipeline over another planner model (the driver passes `planFor`, which is `plan`
+    except where a fragment is expanded more than once, see Model/SanitizeShared.lean) -/
+def gatewayWith (planner : PCtx → Op → G (List Step × Scrub)) (c : PCtx) (cfg : ExecCfg) (op : Op)
+    (reqVars : Option (List (String × J))) (down : Downstream) (scrubOrder : Scrub → Scrub := id) : G GwResult :=
+  gatewayCoreWith planner c cfg op (withDeclaredDefaults Gen.Vars.declaredDefaultsApplied op reqVars) down scrubOrder
 
 /-- the per-request pipeline of `gateway.queryHandler` after validation and operation selection:
     declared defaults (when the handler applies them) → plan → execute → scrub → envelope -/
